@@ -23,7 +23,8 @@ def _fn(name, *sorts):
 
 class Field(object):
     """description of one field of an element kind.
-    kind: ('bytesn', k) | ('bytes',) | ('int',) | ('str',) | ('opt', Field) | ('const', value) | ('none',)"""
+    kind: ('bytesn', k) | ('bytes',) | ('int',) | ('str',) | ('opt', Field) | ('const', value) | ('none',)
+          | ('seq', ElemKind)"""
 
     def __init__(self, kind, where="slot"):
         self.kind = kind
@@ -62,6 +63,9 @@ class ElemKind(object):
             return SInt(_fn(base, REF, z3.IntSort())(r))
         if k[0] == "str":
             return SStr(_fn(base, REF, STR)(r))
+        if k[0] == "seq":
+            # a nested list of objects (e.g. the AVPs of a ghost wire message): Seq(Ref)-valued field function
+            return SSeq(_fn(base, REF, RSEQ)(r), k[1], ("var",))
         if k[0] == "opt":
             has = _fn(base + "!some", REF, z3.BoolSort())(r)
             if ctx.branch(has):
@@ -165,6 +169,10 @@ class ElemKind(object):
             ctx.assume_raw(_fn(base, REF, z3.IntSort())(r) == int_term(cur))
         elif k[0] == "str":
             ctx.assume_raw(_fn(base, REF, STR)(r) == str_term(cur))
+        elif k[0] == "seq":
+            if not isinstance(cur, SSeq):
+                cur = to_sseq(ctx, list(cur), k[1])
+            ctx.assume_raw(_fn(base, REF, RSEQ)(r) == cur.term)
 
     # -- replay support: read a model
     def register_inputs(self, ctx, name, r):
